@@ -152,10 +152,23 @@ MC = {
     #   front of that callback (the chain is LIFO) and widens the window in which only the result's slot is outstanding
     'walltsin': 'main:new.w1,tsnew.t1.k5,mk.h1.f1.s5.a1.d0.v7.t1,wall.h3.f2.I1.i1.y3.t1,then.h1.f1.H2.g4.s2.a0.d1,tswait.t1,rdy.h3.f2,del.h3.f2,del.h2.f4,del.h1.f1,tsdel.t1,delp',
     'walltsin6': 'main:new.w1,tsnew.t2.k6,mk.h1.f1.s6.a1.d0.v7.t2,mk.h2.f2.s6.a1.d1.v8.t2,wall.h3.f3.I1_2.i1_2.y4_5.t2.r1,tswait.t2,rdy.h3.f3,del.h3.f3,del.h1.f1,del.h2.f2,tsdel.t2,delp',
+    # C19, task-set overloads of then(): then(f, TaskSet) / then(f, ConcurrentTaskSet) on an antecedent that is NOT ready,
+    # and a thread waits on / gets the CONTINUATION (deferred policy: it may run inline in the waiter) before the
+    # antecedent completed: the continuation body must still see a ready antecedent (`tbegin` records parent.is_ready(),
+    # ThenAfterReady).  The random programs pick a task-set then() rarely and wait on its result before the antecedent
+    # finished more rarely still; the natural order (taskSet.wait(), then look) never runs the continuation early.
+    #   thents:   deferred antecedent on the manual queue, nobody runs it before main gets the continuation (`go` comes
+    #             later): the getter runs the continuation inline, whose wait on the antecedent runs THAT inline first
+    #   thents6:  antecedent queued in the ConcurrentTaskSet (one real pool worker, not deferred: a waiter must block)
+    #             racing main's then() + wait() on the continuation
+    #   thentsq:  not-deferred antecedent on the manual queue run by thread r, racing then() + get() of the continuation
+    'thents': 'main:new.w0,tsnew.t1.k5,mk.h1.f1.s1.a0.d1.v7,then.h1.f1.H2.g2.s5.a0.d1.t1,get.h2.f2,go,del.h2.f2,del.h1.f1,tswait.t1,sync,tsdel.t1,delp;r:up,runq',
+    'thents6': 'main:new.w1,tsnew.t2.k6,mk.h1.f1.s6.a1.d0.v7.t2,then.h1.f1.H2.g2.s6.a0.d1.t2,wait.h2.f2,rdy.h1.f1,del.h2.f2,del.h1.f1,tswait.t2,tsdel.t2,delp',
+    'thentsq': 'main:new.w0,tsnew.t2.k6,mk.h1.f1.s1.a0.d0.v8,then.h1.f1.H2.g2.s6.a0.d1.t2,go,get.h2.f2,rdy.h1.f1,del.h2.f2,del.h1.f1,tswait.t2,sync,tsdel.t2,delp;r:up,runq',
 }
 
 # the task-set programs above: run in the real code by C19's E4 (every tier)
-TS_PROGS = ('wallts', 'wallts6', 'walltst', 'walltst6', 'wanyts', 'walltsin', 'walltsin6')
+TS_PROGS = ('wallts', 'wallts6', 'walltst', 'walltst6', 'wanyts', 'walltsin', 'walltsin6', 'thents', 'thents6', 'thentsq')
 
 
 INVARIANTS = ('TypeOK NoBad FuncOnce ReadyImpliesRan GetsAgree DeallocOnce RefsSane ThenAfterReady TsWaitImpliesReady '
